@@ -8,7 +8,7 @@ from vlib import coq_value, coq_z, ji, jf_bits, js, jb, jts
 import gen
 
 ID = "C29"
-THEOREMS = ["C29_abs", "C29_abs_float", "C29_abs_min_refuted", "C29_mod_sign", "C29_mod_zero", "C29_rint_exact",
+THEOREMS = ["C29_abs", "C29_abs_float", "C29_abs_min_wraps", "C29_mod_sign", "C29_mod_zero", "C29_rint_exact",
             "C29_rint_fixed", "C29_rint_sign", "C29_round_precision0", "C29_round_precision0_inhabited",
             "C29_round_bound_partial", "C29_round_bound_partial_inhabited",
             "C29_round_range_refuted", "C29_round_big_refuted", "C29_round_inexact_mult_refuted",
@@ -24,13 +24,13 @@ MANIFEST = {
     "level": "proof",
     "technique": "Coq proofs (integer arithmetic on mantissas; Flocq for the real-valued bound) on a hand model of the numeric "
                  "stdlib functions + differential correspondence vs the Rust + exact-arithmetic oracle on the implementation",
-    "text": "Partial. Proved about the model Model/NumFns.v: abs = |z| on every i64 but MIN and sign-clearing on floats; integer mod "
+    "text": "Partial. Proved about the model Model/NumFns.v: abs = wrap64 |z| on every i64 (|z| except at MIN, which wraps to itself) and sign-clearing on floats; integer mod "
             "obeys a = b*trunc(a/b)+r, |r|<|b|, sign of the dividend; exact semantics of f64::floor/ceil/round on (sign, mantissa, "
             "exponent); round/ceil/floor at precision 0 satisfy the property exactly for every finite float; for any precision "
             "the bound |y-x| <= 10^-p + ulp(y)/2 with ceil >= x, floor <= x holds in the regime where multiplier and product are "
             "exact (C29_round_bound_partial) and is REFUTED in each of the other four regimes (known findings, witnesses replayed "
             "on the implementation); parse_int/to_int invert to_string on every i64, to_float(to_string z) = to_float z on every "
-            "i64, to_int(to_float z) = z up to 2^53, `f as i64` truncates. abs(i64::MIN) panics (known finding). The model is tied "
+            "i64, to_int(to_float z) = z up to 2^53, `f as i64` truncates. (abs(i64::MIN) panicked before /repo b0e107f: finding fixed.) The model is tied "
             "to the code by bitwise comparison on generated cases (float bit patterns, precisions in [-400,400] and i64 "
             "extremes, numeric strings), the implementation's powf(10,p) is checked for faithfulness for all p in [-400,400].",
     "note": "Trusted: Coq kernel + vm_compute; the hand-written model (tied by correspondence only); libm powf is a parameter "
@@ -409,8 +409,6 @@ def case_class(case, out):
 
 def known_matcher(entry, case, out):
     m = entry["match"]
-    if m.get("op") == "abs":
-        return (case["op"] == "abs" and case["ev"]["x"] == {"i": str(I64_MIN)} and "panic" in out["steps"][0])
     if m.get("op") == "round":
         cls = case_class(case, out)
         return cls is not None and cls != "RcGood" and cls == m["class"]
